@@ -562,7 +562,7 @@ class Engine:
         lc = self.c.loop(ordn)
         if lc is None:
             raise OutOfSubset(f"loop {ordn} `{fp}` has no invariant in the contract")
-        if lc.fingerprint != fp:
+        if lc.fingerprint != fp and extract.normalise_fingerprint(lc.fingerprint) != fp:
             raise OutOfSubset(f"loop {ordn}: fingerprint drift: contract `{lc.fingerprint}` vs source `{fp}`")
         return ordn, lc
 
@@ -780,7 +780,7 @@ class Engine:
         if isinstance(v, _PyTuple) and isinstance(ty, TTuple):
             return Val(ty, ty.mk(*[self.coerce(x, e, st).t for x, e in zip(v.items, ty.elems)]))
         if isinstance(v.ty, TOpt) and v.ty.elem == ty:
-            self.oblige(st, "optional_value_is_not_none", z3.Not(v.ty.is_none(v.t)), 0, kind="safety")
+            self.oblige(st, "optional_value_is_not_none", z3.Not(v.ty.is_none(v.t)), 0, kind="model")
             return Val(ty, v.ty.val(v.t))
         raise OutOfSubset(f"cannot use {v.ty} where {ty} is expected")
 
